@@ -23,6 +23,8 @@ static int type_w;
 
 static const char *classify(const char *s, const char *pipe_target)
 {
+	if (s[0] == 0)
+		return "unknown";	/* the child's report did not arrive (loaded machine): no verdict */
 	if (!strncmp(s, "/dev/null", 9))
 		return "null";
 	if (!strncmp(s, "pipe:", 5))
@@ -115,7 +117,7 @@ int main(int argc, char **argv)
 	IV_TIMER_INIT(&tmo);
 	iv_validate_now();
 	tmo.expires = iv_now;
-	tmo.expires.tv_sec += 5;
+	tmo.expires.tv_sec += 20;
 	tmo.handler = timed_out;
 	IV_FD_INIT(&rfd);
 	rfd.fd = fd;
